@@ -48,6 +48,8 @@ def _install(ctx):
 def _ancestors(m, pos):
     try:
         leaf = m.get_leaf_for_position(tuple(pos), include_prefixes=True)
+        if leaf is not None and tuple(leaf.end_pos) == tuple(pos) and tuple(leaf.start_pos) != tuple(pos) and leaf.get_next_leaf() is not None:
+            leaf = leaf.get_next_leaf()     # the position is the start of the next leaf, not the end of this one
     except Exception:
         return [], None
     out = []
@@ -66,6 +68,8 @@ def _mech(m, pos):
     d = {}
     try:
         leaf = m.get_leaf_for_position(tuple(pos), include_prefixes=True)
+        if leaf is not None and tuple(leaf.end_pos) == tuple(pos) and tuple(leaf.start_pos) != tuple(pos) and leaf.get_next_leaf() is not None:
+            leaf = leaf.get_next_leaf()
     except Exception:
         return d
     # innermost scope kind
